@@ -238,6 +238,42 @@ int main(int argc, char **argv) {
         }
     }
 
+    // ---------- (a') ReadOnly after a ReadWrite session of the SAME process whose entity handles are still alive ----------
+    // (if close() leaves the HDF5 file open because of live handles, a later ReadOnly open attaches to the writable file)
+    for (int nh : {0, 3, 40, 200}) {
+        long cid = caseno++;
+        if (!vf::take_case(cid)) continue;
+        vf::case_desc("ReadOnly reopen in the same process with " + std::to_string(nh) + " stale handles of an earlier ReadWrite session alive");
+        E.alpha = ops::entity_alphabet(2);
+        std::string p = vf::scratch_file("stale.h5");
+        ops::copy_file(E.seed("R3").path, p);
+        vf::set_clock(E.clock0 + 100);
+        std::vector<DataArray> held_a; std::vector<Block> held_b; std::vector<Section> held_s;
+        {
+            File w = File::open(p, FileMode::ReadWrite);
+            for (int i = 0; i < nh; i++) { Block b = w.getBlock(0); held_b.push_back(b); held_a.push_back(b.getDataArray(i % b.dataArrayCount())); held_s.push_back(w.getSection(0)); }
+            w.close();
+        }
+        std::string bytes0 = ops::slurp(p);
+        File f;
+        std::string exc = vf::guarded([&] { f = File::open(p, FileMode::ReadOnly); });
+        if (!exc.empty()) { vf::violation("C09|File::open ReadOnly|after a ReadWrite session with live handles|refused", std::to_string(nh) + " handles: " + exc); continue; }
+        std::string returned;
+        for (size_t op = 0; op < E.alpha.size(); op++) {
+            std::string r;
+            try { E.alpha[op].run(f); r = "returned"; } catch (const ops::NotEnabled &) { r = "notenabled"; } catch (...) { r = "throws"; }
+            if (r == "notenabled") continue;
+            vf::count("readonly_calls");
+            if (r == "returned" && E.alpha[op].mutating && E.alpha[op].name.find("create") != std::string::npos) returned += E.alpha[op].name + "; ";
+        }
+        vf::guarded([&] { f.close(); });
+        held_a.clear(); held_b.clear(); held_s.clear();
+        vf::count("byte_comparisons");
+        if (!returned.empty()) vf::violation("C09|create call|ReadOnly file opened while stale handles of a ReadWrite session are alive|mutating call returned normally", std::to_string(nh) + " handles: " + returned.substr(0, 300));
+        if (ops::slurp(p) != bytes0) vf::violation("C09|ReadOnly session|opened while stale handles of a ReadWrite session are alive|bytes of the file changed", std::to_string(nh) + " handles");
+        vf::distinct("outcomes", "stale-rw-handles|" + std::to_string(nh) + "|" + (returned.empty() ? "all creates throw" : "some return"));
+    }
+
     // ---------- (d) header defects ----------
     struct Defect { const char *name; std::function<void(const std::string &)> plant; };
     auto with_file = [](const std::string &p, const std::function<void(hid_t)> &fn) { hid_t h = H5Fopen(p.c_str(), H5F_ACC_RDWR, H5P_DEFAULT); if (h < 0) throw std::runtime_error("cannot open for planting"); fn(h); H5Fclose(h); };
